@@ -25,7 +25,9 @@ RULE = ("one run = a drawn formula (flat builder / composed with sub-engines / 3
         "drawn first timestamps, delivered under a drawn interleaving (which stream next, gap, stalls, consumer "
         "attach point, receiver capacity) and compared with the lock-step run; non-trivial = streams were "
         "delivered with non-zero relative lag or staggered starts; distinct = abstract digest of the delivery "
-        "sequence (stream order)")
+        "sequence (stream order)"
+        " Also: None samples (nones_are_zeros drawn per stream), per-stream UTC offsets of the stamps, first"
+        " timestamps up to 95 steps apart for flat formulas.")
 QUICK_RUNS = 5000
 THOROUGH_RUNS = 300_000
 EXPECT_PROBES = ["staggered_start", "late_attach", "lag_ge_3", "forced_settle", "generated_formula_with_fallback",
